@@ -515,6 +515,26 @@ func C14(c *fw.Ctx) {
 					}
 				}
 			}
+			if s == 0 {
+				// cycles whose second copy runs into something else before it gets to its INCLUDE again: the copy stands inside the
+				// explicit context the first one has left open (D79)
+				for ci, fs := range []map[string]string{
+					{"root.jst": "JSIGHT 0.3\nINCLUDE a.jst\n", "a.jst": "URL /a\n(\n  GET\n  INCLUDE a.jst\n)\n"},
+					{"root.jst": "JSIGHT 0.3\nINCLUDE a.jst\n", "a.jst": "INFO\n(\n  Title \"t\"\n  Version 1\n  INCLUDE a.jst\n)\n"},
+					{"root.jst": "JSIGHT 0.3\nINCLUDE a.jst\n", "a.jst": "GET /a\n(\n  200 any\n  Description\n    x\n  INCLUDE a.jst\n)\n"},
+					{"root.jst": "JSIGHT 0.3\nINCLUDE a.jst\n", "a.jst": "URL /a\n(\n  GET\n  INCLUDE b.jst\n)\n", "b.jst": "  200 any\n  INCLUDE a.jst\n"},
+					{"root.jst": "JSIGHT 0.3\nURL /r\n(\n  INCLUDE a.jst\n)\n", "a.jst": "GET\n  200 any\nTAG @t\nINCLUDE a.jst\n"},
+					{"root.jst": "JSIGHT 0.3\nINCLUDE a.jst\n", "a.jst": "SERVER @s\n(\n  BaseUrl \"http://x\"\n  INCLUDE sub/b.jst\n)\n", "sub/b.jst": "# b\nINCLUDE c.jst\n", "sub/c.jst": "INCLUDE b.jst\n"},
+					{"root.jst": "JSIGHT 0.3\nINCLUDE a.jst\n", "a.jst": "MACRO @m\n(\n  200 any\n  INCLUDE a.jst\n)\n"},
+					{"root.jst": "JSIGHT 0.3\nINCLUDE a.jst\n", "a.jst": "TYPE @t\n  {}\nURL /a\n(\n  GET\n  (\n    INCLUDE a.jst\n  )\n)\n"},
+				} {
+					files := map[string][]byte{}
+					for k, v := range fs {
+						files[k] = []byte(v)
+					}
+					emit(&proto.Job{ID: fmt.Sprintf("cyclectx/%d", ci), Root: "root.jst", Files: files, WantFiles: true})
+				}
+			}
 			id := fmt.Sprintf("graph/s-%d", s)
 			maxMuLock.Lock()
 			graphs[id] = ig
@@ -593,6 +613,26 @@ func C14(c *fw.Ctx) {
 			}
 			if ti == 2 && !strings.Contains(res.Err.Msg, "recursion") {
 				c.Violate("position:cycle-message", fmt.Sprintf("INCLUDE of the root file %s reported as %q", pl.name, res.Err.Msg), rp)
+			}
+			return
+		}
+		if strings.HasPrefix(j.ID, "cyclectx/") {
+			rp := replayOf(j, res)
+			c.Inc("graphs", "cycle-inside-an-explicit-context", 1)
+			if sig, what := crashSig(res); sig != "" {
+				c.Violate(sig, what, rp)
+				return
+			}
+			switch {
+			case res.Err == nil:
+				c.Violate("graph:cycle-accepted", "an include cycle inside an explicit context was accepted", rp)
+			case !strings.Contains(res.Err.Msg, "recursion"):
+				c.Violate("graph:cycle-message", fmt.Sprintf("include cycle reported as %q at %s:%d", res.Err.Msg, relName(res, res.Err.File), res.Err.Line), rp)
+			default:
+				name := relName(res, res.Err.File)
+				if content, ok := j.Files[name]; !ok || !lineHasInclude(content, res.Err.Line, "lf") {
+					c.Violate("graph:cycle-location", fmt.Sprintf("recursion error at %s:%d which holds no INCLUDE", name, res.Err.Line), rp)
+				}
 			}
 			return
 		}
